@@ -3,9 +3,11 @@
 export GOFLAGS=-mod=mod GOPROXY=off GOSUMDB=off GOTOOLCHAIN=local
 : "${VERIF_ROOT:=$(cd "$(dirname "$0")" && pwd)}"
 export VERIF_ROOT
+# the repository under verification (the harness go.mod points at it with a replace directive)
+REPO="${VERIF_REPO:-/repo}"
 cd $VERIF_ROOT/harness || exit 2
 mkdir -p $VERIF_ROOT/bin $VERIF_ROOT/.work $VERIF_ROOT/evidence $VERIF_ROOT/replays
-cp /repo/go.sum go.sum
+cp $REPO/go.sum go.sum
 go build -o $VERIF_ROOT/bin/vcheck ./cmd/vcheck || exit 2
 $VERIF_ROOT/tools/build_vsched.sh || exit 2
 $VERIF_ROOT/tools/build_vcheck_i.sh || exit 2
